@@ -327,6 +327,7 @@ type Gen struct {
 	ASCII  bool // only ASCII in strings (needed where the Coq model evaluates Quote)
 	// C13: part numbering of a message whose own type is message/rfc822 is not exercised
 	NoTopMsg   bool
+	TopMsg     bool // the message itself is of type message/rfc822
 	NoMsgInMsg bool
 	// with NoMsgInMsg: still generate chains message/rfc822 > message/rfc822 > ... that end in a single part
 	MsgChainLeaf bool
@@ -548,6 +549,9 @@ func (g *Gen) Tree(depth int, top bool, eolMix bool) *Node {
 	}
 	if top && g.NoTopMsg && kind >= 8 {
 		kind = 5
+	}
+	if top && g.TopMsg {
+		kind = 9
 	}
 	switch {
 	case kind < 5: // leaf
